@@ -18,6 +18,8 @@ pub fn sigma_full() -> Vec<&'static str> {
     let mut v = vec![
         // text / misc
         "x", " ", "\n", "\0", "<!--c-->", "<!DOCTYPE html>", "\t", "\x0C", "\r", "\u{a0}", "\x0B", "\u{3000}",
+        // one character token with several whitespace / non-whitespace runs (split repeatedly by the builder)
+        "y z", " y z ",
         // structure
         "<html>", "<head>", "<body>", "</head>", "</body>", "</html>",
         // ordinary / special blocks
@@ -401,6 +403,30 @@ pub fn pointer_job(tier: Tier) -> Job {
     }
 }
 
+/// C18: prepared structures in which the builder holds a node that is off the stack of open elements
+/// (active formatting entries before a marker, form / head pointers), then script detaches + a few tokens
+pub fn pointer_prep_jobs(tier: Tier) -> Vec<Job> {
+    let sigma: Vec<&'static str> = vec![
+        "</template>", "</td>", "</table>", "</caption>", "<div>", "x", "</b>", "</i>", "<input>", "<title>", "</form>", "<p>", "<b>", "<td>",
+        "@0", "@1", "@2", "@3", "@4", "@5",
+    ];
+    let preps: Vec<Vec<&'static str>> = vec![
+        vec!["<p>", "<b>", "</p>", "<template>"],
+        vec!["<p>", "<b>", "</p>", "<table>", "<tr>", "<td>"],
+        vec!["<p>", "<b>", "<i>", "</p>", "<table>", "<caption>"],
+        vec!["<p>", "<b>", "</p>", "<applet>"],
+        vec!["<table>", "<form>", "<template>"],
+        vec!["<div>", "<form>", "</div>", "<template>"],
+        vec!["<div>", "<form>", "</div>", "<table>", "<tr>", "<td>"],
+        vec!["</head>", "<div>"],
+        vec!["<b>", "<i>", "<p>", "<table>", "<td>"],
+        vec!["<a>", "<table>", "<td>", "<a>"],
+        vec!["<template>", "<p>", "<b>", "</p>", "<td>"],
+    ];
+    let depth = tier.pick(3, 4);
+    preps.into_iter().map(|w| Job { name: format!("J9/{}", w.concat()), cfg: TreeCfg::default(), prefix: w, sigma: sigma.clone(), depth }).collect()
+}
+
 pub fn jobs(tier: Tier, full: bool) -> Vec<Job> {
     let sigma: Vec<&'static str> = if full { sigma_full() } else { sigma_full().into_iter().filter(|l| !is_c02_excluded(l)).collect() };
     let mut v = vec![];
@@ -552,6 +578,7 @@ pub fn main(ctx: &Ctx, prop: Prop) -> ! {
     js.retain(|j| j.depth > 0);
     if prop == Prop::C18 {
         js.push(pointer_job(ctx.tier));
+        js.extend(pointer_prep_jobs(ctx.tier));
     }
     let (mut states, mut transitions, mut maxd) = (0u64, 0u64, 0usize);
     let mut closed_all = true;
